@@ -9,14 +9,15 @@ TECHNIQUE = "runtime monitoring on a virtual-time simulated network: bursts of C
 LEVEL_TEXT = "Each generated burst (2-8 messages, 1-3 endpoints, every reaction kind at several delays) is run against the real MessageManager; predicted first-transmission instants, exchange intervals, FIFO order and completion of every request are compared with the recorded history."
 LEVEL_NOTE = "Trusted: harness/simnet.py wire log and virtual clock, the queue model in checks/c14.py. Submission order is recorded at the MessageManager.send_message boundary (instance wrapper installed from the harness). Peers never answer with a separate response while the exchange is still unacknowledged."
 RULE = (
-    "one case = one burst: messages (submit offset, endpoint, CON/NON, reaction in {piggyback, empty ACK + separate response, ACK with a foreign response + separate response, Reset, synchronous send failure at the first retransmission, synchronous refusal of the message's very first transmission (also when its turn comes out of the backlog), a message that cannot be serialised, silence, ICMP error} with delay class). "
+    "one case = one burst: messages (submit offset, endpoint, CON/NON, reaction in {piggyback, empty ACK + separate response, ACK with a foreign response + separate response, Reset, synchronous send failure at the first retransmission, synchronous refusal of the message's very first transmission (also when its turn comes out of the backlog), a message that cannot be serialised (from the start, or only by the time its turn comes), silence, ICMP error} with delay class). "
     "Non-trivial = at least one message was held back behind another exchange; distinct = distinct tuples of (endpoint, type, reaction, delay class, offset class)"
 )
 ASSUMPTIONS = ["default TransportTuning (MAX_RETRANSMIT 4) for all requests", "one-way latency 1 ms"]
-REQUIRED_MONITORS = {"first_tx_time": 300, "no_overlap": 300, "fifo": 100, "held_back_failed_with_head": 20, "non_not_delayed": 50, "other_endpoint_not_delayed": 50, "all_completed": 100, "backlog_invariant": 200, "unserialisable": 30, "unserialisable_in_queue": 10, "refused_first_in_queue": 10}
+REQUIRED_MONITORS = {"first_tx_time": 300, "no_overlap": 300, "fifo": 100, "held_back_failed_with_head": 20, "non_not_delayed": 50, "other_endpoint_not_delayed": 50, "all_completed": 100, "backlog_invariant": 200, "unserialisable": 30, "unserialisable_in_queue": 10, "refused_first_in_queue": 10, "became_unserialisable_while_waiting": 10}
 
-REACTIONS = ["piggy", "empty+sep", "foreign-ack+sep", "rst", "silent", "icmp", "unreach-at-retx", "refused-first", "unserialisable"]
+REACTIONS = ["piggy", "empty+sep", "foreign-ack+sep", "rst", "silent", "icmp", "unreach-at-retx", "refused-first", "unserialisable", "unserialisable-later"]
 DELAYS = {"now": 0.0, "short": 0.3, "after-retx": 3.5}
+LATER = 0.0005  # an "unserialisable-later" message becomes unserialisable this long after it was handed in
 OFFSETS = [0.0, 0.0, 0.0, 0.0, 0.01, 1.0, 5.0, 120.0]  # 120 s: after an unanswered exchange ahead has timed out
 
 
@@ -38,7 +39,7 @@ def gen_burst(r):
         # keep silence / icmp rarer: they end everything queued behind them
         if reaction in ("silent", "icmp", "unreach-at-retx", "refused-first") and r.random() < 0.5:
             reaction = "piggy"
-        msgs.append({"i": i, "t": t, "ep": r.randrange(neps), "type": typ, "reaction": reaction, "delay": r.choice(list(DELAYS))})
+        msgs.append({"i": i, "t": t, "ep": r.randrange(neps), "type": typ, "reaction": reaction, "delay": r.choice(list(DELAYS)) if reaction != "unserialisable-later" else "now"})
     return neps, msgs
 
 
@@ -71,7 +72,7 @@ def run_burst(neps, msgs, seed, rep, case):
             if m.type == rc.NON:
                 loop.call_later(d, peer.send, src, rc.Msg(rc.NON, rc.c(2, 5), peer.next_mid(), m.token, (), b"non-%d" % spec["i"]))
                 return
-            if kind == "piggy":
+            if kind in ("piggy", "unserialisable-later"):
                 loop.call_later(d, peer.send, src, rc.Msg(rc.ACK, rc.c(2, 5), m.mid, m.token, (), b"piggy-%d" % spec["i"]))
             elif kind == "empty+sep":
                 loop.call_later(d, peer.send, src, rc.Msg(rc.ACK, 0, m.mid, b"", (), b""))
@@ -150,6 +151,10 @@ def run_burst(neps, msgs, seed, rep, case):
                 # message is long after it was handed in
                 m.payload = "text, not bytes"
             r_ = cli.request(m, handle_blockwise=False)
+            if spec["reaction"] == "unserialisable-later":
+                # the application goes on using its Message object while the message is (possibly) still waiting for
+                # its turn, and leaves it in a state that cannot be serialised
+                loop.call_later(LATER, lambda m=m: setattr(m, "payload", "text, not bytes"))
             rec = {"spec": spec, "t_call": loop.time(), "done": None}
             r_.response.add_done_callback(lambda f, rec=rec: rec.update(done=(loop.time(), f.exception() if not f.cancelled() else "cancelled", bytes(f.result().payload) if not f.cancelled() and f.exception() is None else None)))
             reqs.append((r_, rec))
@@ -227,7 +232,7 @@ def judge(box, msgs, res, rep, case):
                 # was waiting when the exchange ahead failed
                 rep.monitor("held_back_failed_with_head")
                 held_back += 1
-                if s["spec"]["reaction"] == "unserialisable":
+                if s["spec"]["reaction"] in ("unserialisable", "unserialisable-later"):
                     # may be refused as early as it is handed in; at the latest it goes down with the rest
                     d = done_by_i.get(i)
                     if o is not None:
@@ -249,7 +254,9 @@ def judge(box, msgs, res, rep, case):
             predicted = max(ts, free_at)
             if predicted > ts + 1e-12:
                 held_back += 1
-            if s["spec"]["reaction"] == "unserialisable":
+            if s["spec"]["reaction"] == "unserialisable-later" and predicted > ts + LATER:
+                rep.monitor("became_unserialisable_while_waiting")
+            if s["spec"]["reaction"] == "unserialisable" or (s["spec"]["reaction"] == "unserialisable-later" and predicted > ts + LATER):
                 # never reaches the wire: its request fails (with whatever the serialiser raised) when it is handed in
                 # or at the latest in the instant its turn comes, and the endpoint is as free as before
                 rep.monitor("unserialisable_in_queue", 1 if predicted > ts + 1e-12 else 0)
@@ -324,7 +331,7 @@ def judge(box, msgs, res, rep, case):
             continue
         if rq["done"] is None:
             rep.violation("request-never-completed", "a request neither completed nor failed by the end of the run", wit(spec=spec), case)
-        elif rq["done"][1] is not None and not isinstance(rq["done"][1], error.Error) and spec["reaction"] != "unserialisable":
+        elif rq["done"][1] is not None and not isinstance(rq["done"][1], error.Error) and spec["reaction"] not in ("unserialisable", "unserialisable-later"):
             rep.violation("request-failed-with-non-library-error", "a request failed with an exception outside the library's error hierarchy", wit(spec=spec, exc=repr(rq["done"][1])), case)
     inv = box["inv"]
     rep.monitor("backlog_invariant", inv["n"])
